@@ -203,85 +203,90 @@ def check(ctx):
         return out
 
     mk = "liesel.goose.warmup._EpochConfig"
-    seq = []  # (type name, duration term, thinning term, cond, in_loop)
-    # initial list literal
-    lst0 = None
-    for lp in rs.loops:
-        lst0 = lp["before"].get("epochs")
-    if lst0 is not None and lst0[0] == "list":
-        for t in lst0[1]:
-            if is_call(t, mk):
-                p = parts(t)
-                seq.append((p["type"][1].rsplit(".", 1)[-1], p["duration"], p["thinning"], (),
-                            False))
-    for t, node, cond in rs.calls:
-        if t[0] == "call" and t[1][0] == "a" and t[1][2] == "append" and t[2] \
-                and is_call(t[2][0], mk):
-            p = parts(t[2][0])
-            inl = any(a[0] == "inloop" for a, _ in cond)
-            seq.append((p["type"][1].rsplit(".", 1)[-1], p["duration"], p["thinning"],
-                        tuple((a, pol) for a, pol in cond if a[0] != "inloop"
-                              and not _is_arg_guard(a)), inl))
-    pattern = [(s[0], s[4]) for s in seq]
+
+    def flatten(t, in_loop=False):
+        """The sequence of appended configs encoded in the returned accumulator term."""
+        if t[0] == "mut" and t[2] == "append":
+            return flatten(t[1], in_loop) + [(t[3][0], in_loop)]
+        if t[0] == "loop":
+            return flatten(t[2], True)
+        if t[0] == "carried":
+            return flatten(t[2], False)
+        if t[0] == "list":
+            return [(x, in_loop) for x in t[1]]
+        return [(("opaque", "?"), in_loop)]
+
+    rt = rs.ret()
+    seq = []
+    for cfg_t, inl in (flatten(rt) if rt is not None else []):
+        if is_call(cfg_t, mk):
+            p = parts(cfg_t)
+            seq.append((p["type"][1].rsplit(".", 1)[-1], p["duration"], p["thinning"], (), inl))
+        else:
+            seq.append(("?", cfg_t, None, (), inl))
+    pattern = [(s_[0], s_[4]) for s_ in seq]
     want_pat = [("INITIAL_VALUES", False), ("FAST_ADAPTATION", False),
                 ("SLOW_ADAPTATION", True), ("SLOW_ADAPTATION", False),
                 ("FAST_ADAPTATION", False), ("POSTERIOR", False)]
     ctx.ob("C16.R3", se, "epoch pattern INITIAL, FAST, SLOW* (loop), SLOW (rest), FAST, "
-                         "POSTERIOR", pattern == want_pat, detail=str(pattern),
-           stmt="pattern " + str(pattern))
+                         "POSTERIOR", pattern == want_pat and len(rs.returns) == 1,
+           detail=str(pattern), stmt="pattern " + str(pattern))
     if pattern == want_pat and len(rs.loops) == 1:
         lp = rs.loops[0]
         W, I, T, B = sp.symbols("W I T B", positive=True)
         syms = {n("warmup_duration"): W, n("init_duration"): I, n("term_duration"): T,
                 n("base_duration"): B}
-        tl0 = lp["before"].get("time_left")
-        tt0 = lp["before"].get("this_time")
-        try:
-            ok_tl = is_zero(to_sympy(tl0, syms) - (W - I - T))
-        except (Untranslatable, TypeError):
-            ok_tl = False
-        ctx.ob("C16.R3", se, "time left for the slow windows starts at warmup - init - term",
-               ok_tl, detail=short(tl0 or ()), stmt="time_left0 " + pretty(tl0 or ()))
-        ctx.ob("C16.R3", se, "the first slow window has the base duration",
-               tt0 == n("base_duration"), detail=short(tt0 or ()))
         init_e, fast1, slow_loop, slow_rest, fast2, post = seq
-        ctx.ob("C16.R3", se, "INITIAL epoch has duration 1 and thinning 1",
-               init_e[1] == c(1) and init_e[2] == c(1))
-        ctx.ob("C16.R3", se, "first FAST epoch has duration init_duration, last FAST epoch "
-                             "term_duration", fast1[1] == n("init_duration")
-               and fast2[1] == n("term_duration"),
-               detail=f"{short(fast1[1])}, {short(fast2[1])}")
-        # loop: appended duration == amount subtracted from time_left, guard 3*d <= left
-        tl_c = ("carried", "time_left", tl0)
-        tt_c = ("carried", "this_time", tt0)
-        dur_loop = slow_loop[1]
-        tl_after = lp["carried"].get("time_left")
-        tt_after = lp["carried"].get("this_time")
-        ok_inv = (dur_loop == tt_c and tl_after == ("op", "-", tl_c, dur_loop))
-        ctx.ob("C16.R3", se, "loop invariant: each iteration appends SLOW(d) and subtracts "
-                             "exactly d from the time left (appended warm-up + time left "
-                             "stays warmup - term)", ok_inv,
-               detail=f"appended {short(dur_loop)}; time_left' = {short(tl_after or ())}",
-               stmt="loop invariant " + pretty(tl_after or ())[:100])
-        ctx.ob("C16.R3", se, "slow windows double", tt_after in (
-            ("op", "*", tt_c, c(2)), ("op", "*", c(2), tt_c)), detail=short(tt_after or ()))
         cond_l = lp["cond"]
-        ok_g = cond_l == cmp_("<=", ("op", "*", c(3), tt_c), tl_c)
+        # the loop test is  3 * d <= left  with d, left loop-carried
+        tt_c = tl_c = None
+        if cond_l is not None and cond_l[0] == "cmp" and cond_l[1] == "<=" \
+                and cond_l[3][0] == "carried":
+            tl_c = cond_l[3]
+            prod = cond_l[2]
+            if prod[0] == "op" and prod[1] == "*" and c(3) in (prod[2], prod[3]):
+                tt_c = prod[3] if prod[2] == c(3) else prod[2]
+        ok_g = tt_c is not None and tt_c[0] == "carried" and tl_c is not None
         ctx.ob("C16.R3", se, "a doubling window d is appended only while 3*d <= time left "
                              "(so the remaining window is never shorter than the next one)",
-               ok_g and not slow_loop[3], detail=short(cond_l or ()),
+               ok_g and slow_loop[1] == tt_c, detail=short(cond_l or ()),
                stmt="loop guard " + pretty(cond_l or ())[:100])
-        ctx.ob("C16.R3", se, "the last slow window takes all the time left",
-               slow_rest[1] == ("loop", "time_left", tl_after) or slow_rest[1][0] == "loop"
-               and slow_rest[1][1] == "time_left", detail=short(slow_rest[1]))
-        ctx.ob("C16.R3", se, "POSTERIOR epoch has the requested duration and posterior "
-                             "thinning; warm-up epochs use the warm-up thinning",
-               post[1] == n("posterior_duration") and post[2] == n("thinning_posterior")
-               and all(s[2] == n("thinning_warmup") for s in (fast1, slow_loop, slow_rest,
-                                                               fast2)))
-        rt = rs.ret()
-        ctx.ob("C16.R3", se, "the generated list is returned", rt is not None
-               and rt[0] in ("loop", "list", "carried") or (rt is not None and rt[0] == "n"))
+        if ok_g:
+            tl0, tt0 = tl_c[2], tt_c[2]
+            tl_name, tt_name = tl_c[1], tt_c[1]
+            try:
+                ok_tl = is_zero(to_sympy(tl0, syms) - (W - I - T))
+            except (Untranslatable, TypeError):
+                ok_tl = False
+            ctx.ob("C16.R3", se, "time left for the slow windows starts at warmup - init - "
+                                 "term", ok_tl, detail=short(tl0 or ()),
+                   stmt="time_left0 " + pretty(tl0 or ()))
+            ctx.ob("C16.R3", se, "the first slow window has the base duration",
+                   tt0 == n("base_duration"), detail=short(tt0 or ()))
+            ctx.ob("C16.R3", se, "INITIAL epoch has duration 1 and thinning 1",
+                   init_e[1] == c(1) and init_e[2] == c(1))
+            ctx.ob("C16.R3", se, "first FAST epoch has duration init_duration, last FAST "
+                                 "epoch term_duration", fast1[1] == n("init_duration")
+                   and fast2[1] == n("term_duration"),
+                   detail=f"{short(fast1[1])}, {short(fast2[1])}")
+            dur_loop = slow_loop[1]
+            tl_after = lp["carried"].get(tl_name)
+            tt_after = lp["carried"].get(tt_name)
+            ok_inv = (dur_loop == tt_c and tl_after == ("op", "-", tl_c, dur_loop))
+            ctx.ob("C16.R3", se, "loop invariant: each iteration appends SLOW(d) and "
+                                 "subtracts exactly d from the time left (appended warm-up + "
+                                 "time left stays warmup - term)", ok_inv,
+                   detail=f"appended {short(dur_loop)}; time_left' = {short(tl_after or ())}",
+                   stmt="loop invariant " + pretty(tl_after or ())[:100])
+            ctx.ob("C16.R3", se, "slow windows double", tt_after in (
+                ("op", "*", tt_c, c(2)), ("op", "*", c(2), tt_c)), detail=short(tt_after or ()))
+            ctx.ob("C16.R3", se, "the last slow window takes all the time left",
+                   slow_rest[1] == ("loop", tl_name, tl_after), detail=short(slow_rest[1]))
+            ctx.ob("C16.R3", se, "POSTERIOR epoch has the requested duration and posterior "
+                                 "thinning; warm-up epochs use the warm-up thinning",
+                   post[1] == n("posterior_duration") and post[2] == n("thinning_posterior")
+                   and all(s_[2] == n("thinning_warmup") for s_ in (fast1, slow_loop,
+                                                                     slow_rest, fast2)))
     # argument guards
     gtexts = [pretty(a) for cond, _, _ in rs.raises for a, p in cond if p]
     ctx.ob("C16.R3", se, "too short warm-ups are rejected (warmup < init + term + base)",
